@@ -4,7 +4,7 @@ from checks import c01
 
 def run(tier):
     return c01.run_jobs(tier, "C03", "c03",
-                        [("main", "fast", c01.NOJ, 2500, 80000), ("main-asan", "asan", c01.NOJ, 250, 6000),
+                        [("main", "fast", c01.NOJ, 5000, 80000), ("main-asan", "asan", c01.NOJ, 250, 6000),
                          ("dispatch", "fast", 0, 800, 20000)],
                         floor=dict(c01.FLOOR, multi_module_programs=50))
 
